@@ -23,7 +23,9 @@ RULE = ("cases = (start position set exactly with G92 or left unknown, "
         "to 64 and a thin class to 600, dz), thread from (target, pitch), "
         "spline from 2..6 control points (also closed on the start or revisiting an earlier control point), polyline from 1..8 points; targets as "
         "2- or 3-tuples, optionally landing on absolute Z = 0 exactly (any "
-        "shape) or X = Y = 0 exactly (spline/polyline); optionally issued "
+        "shape) or X = Y = 0 exactly (spline/polyline); arc/circle centres "
+        "optionally with a (meaningless) third component; optionally with a "
+        "pass-through move hook registered; optionally issued "
         "after another traced path); "
         "non-trivial = start position not at the origin and >= 8 vertices "
         "(polyline: >= 2 points); distinct by SHA-1")
@@ -60,9 +62,12 @@ def shape_strategy(max_turns):
     turns = st.integers(1, max_turns)
     # targets landing on exact zeros (see hist.shape_strategy)
     land = st.sampled_from([None, None, None, None, None, "z0", "z0", "xy0"])
-    return st.tuples(_shapes(max_turns, ang, rad, dz, off, nz, sweep, turns), land).map(
-        lambda t: dict(t[0], land=t[1]) if t[1] and not t[0].get("closed")
-        and t[0].get("revisit") is None else t[0])
+    cz = st.sampled_from([None, None, None, 0.0, 5.0, -2.5])
+    return st.tuples(_shapes(max_turns, ang, rad, dz, off, nz, sweep, turns), land, cz).map(
+        lambda t: dict(dict(t[0], land=t[1]) if t[1] and not t[0].get("closed")
+                       and t[0].get("revisit") is None else t[0],
+                       **({"cz": t[2]} if t[2] is not None and t[0]["shape"] in ("arc", "circle")
+                          else {})))
 
 
 def _shapes(max_turns, ang, rad, dz, off, nz, sweep, turns):
@@ -116,6 +121,7 @@ def strategy(tier):
         "start": start, "mode": st.sampled_from(["absolute", "relative"]),
         "dir": st.sampled_from(["cw", "ccw"]), "dp": st.integers(6, 9),
         "ratio": ratio, "desc": shape_strategy(8 if tier == "quick" else 64),
+        "hooked": st.sampled_from([False, False, True]),
         "pre": st.one_of(st.none(), st.none(), hist.shape_strategy(2))})
 
 
@@ -132,7 +138,11 @@ def check(case, cl=None):
     if d["shape"] == "thread":
         ratio = max(ratio, 8.0 * max(1, int(abs(d["dz"]) / d["pitch"])))
     r = geom.run_shape(case["start"], case["mode"], case["dir"], case["dp"], d,
-                       ratio=ratio, pre=case.get("pre"))
+                       ratio=ratio, pre=case.get("pre"), hooked=bool(case.get("hooked")))
+    if case.get("hooked"):
+        cl.add("move_hook_registered")
+    if d.get("cz") is not None:
+        cl.add("centre_with_third_component")
     info, verts, res, s = r["info"], r["verts"], r["res"], r["s"]
     what = (f"{r['call'][0]}{tuple(r['call'][1])} from {r['start']} "
             f"({case['mode']}, {case['dir']}, res={res:.4g})")
